@@ -671,44 +671,78 @@ def profile_range(rng, d):
     raise KeyError(k)
 
 
-def gen_limits(rng, d, want_partial=False):
-    """requested limits for the models whose analytic form honours them"""
+FAMILIES = ['left_wing', 'right_wing', 'close_sym', 'close_sym', 'close_asym', 'close_asym', 'wide', 'on_centre', 'on_edge',
+            'far_out']
+
+
+def placed_limits(rng, c, w, edge, family, snap=None):
+    """integration limits placed deliberately relative to a feature with centre c, width scale w and an
+    edge / root / half-width at c +- edge.  snap: optional function putting a free position on a dyadic lattice
+    (positions that are exact by construction - centre, edge, c +- w/2^k - are never snapped)"""
+    sn = snap or (lambda t: t)
+    if family == 'left_wing':
+        b = sn(c - edge - w * 10 ** rng.uniform(-1.5, 1.3))
+        a = sn(b - w * 10 ** rng.uniform(-1, 2))
+    elif family == 'right_wing':
+        a = sn(c + edge + w * 10 ** rng.uniform(-1.5, 1.3))
+        b = sn(a + w * 10 ** rng.uniform(-1, 2))
+    elif family == 'close_sym':
+        f = 2.0 ** -rng.randint(1, 6)
+        a, b = c - f * w, c + f * w
+    elif family == 'close_asym':
+        k1 = rng.randint(1, 6)
+        k2 = rng.choice([k for k in range(1, 7) if k != k1])
+        a, b = c - 2.0 ** -k1 * w, c + 2.0 ** -k2 * w
+    elif family == 'wide':
+        a, b = sn(c - w * 10 ** rng.uniform(0.5, 2)), sn(c + w * 10 ** rng.uniform(0.5, 2))
+    elif family == 'on_centre':
+        d = w * 10 ** rng.uniform(-1.5, 2)
+        a, b = (c, sn(c + d)) if rng.random() < 0.5 else (sn(c - d), c)
+    elif family == 'on_edge':
+        d = w * 10 ** rng.uniform(-1.5, 2)
+        side = rng.choice([-1, 1])
+        e = c + side * edge
+        other = sn(e + rng.choice([-1, 1]) * d)
+        a, b = min(e, other), max(e, other)
+    else:                                               # far_out: a thousand widths
+        a, b = sn(c - 1e3 * w * rng.uniform(0.5, 1)), sn(c + 1e3 * w * rng.uniform(0.5, 1))
+    lo = c * 2.0 ** -10                                 # wavelengths stay positive
+    b = max(b, 2 * lo)
+    a = max(a, lo)
+    if b <= a:
+        b = a * (1 + 2.0 ** -20)
+    return a, b
+
+
+def gen_limits(rng, d, want_partial=False, family=None):
+    """requested limits, one of FAMILIES placed relative to the feature; (a, b, geometric grid?)"""
     k = d['kind']
+    family = family or rng.choice(FAMILIES)
     if k == 'lorentz':
         x0, f = fl(d['x0']), fl(d['fwhm'])
-        r = rng.random()
-        if r < 0.6:                                         # around the line
-            a = x0 - f * 10 ** rng.uniform(-1, 2)
-            b = x0 + f * 10 ** rng.uniform(-1, 2)
-        elif r < 0.8:                                       # one wing only
-            a = x0 + f * rng.uniform(0.1, 20)
-            b = a + f * 10 ** rng.uniform(-0.5, 2)
-        else:
-            b = x0 - f * rng.uniform(0.1, 20)
-            a = b - f * 10 ** rng.uniform(-0.5, 2)
-        a = max(a, x0 * 1e-2)
-        return a, max(b, a * (1 + 1e-6)), False
+        a, b = placed_limits(rng, x0, f, f / 2, family)
+        return a, b, False
     if k == 'ricker':
+        # parameters and limits on a dyadic lattice: the refusal guard compares them exactly
         x0, s = fl(d['x0']), fl(d['sigma'])
-        if want_partial:
-            r = rng.randint(0, 5)
-            inside = lat(rng, x0 - s, x0 + s, 4)
-            lo, hi = lat(rng, x0 - 40 * s, x0 - s - 0.0625, 4), lat(rng, x0 + s + 0.0625, x0 + 40 * s, 4)
-            if r == 0:
-                return x0 - s, hi, False                    # exactly on the left root
-            if r == 1:
-                return lo, x0 + s, False                    # exactly on the right root
-            if r == 2:
-                return inside, hi, False
-            if r == 3:
-                return lo, inside if inside > lo else x0, False
-            if r == 4:
-                return hi, hi + s, False                    # entirely to the right
-            return min(inside, x0), max(inside, x0) + 0.0625, False
-        return lat(rng, x0 - 40 * s, x0 - s - 0.0625, 4), lat(rng, x0 + s + 0.0625, x0 + 40 * s, 4), False
+        a, b = placed_limits(rng, x0, s, s, family, snap=lambda t: math.floor(t * 16) / 16)
+        return a, b, False
     if k in ('const', 'powerlaw'):
-        a = 10 ** rng.uniform(1.5, 6)
-        return a, a * (1 + 10 ** rng.uniform(-3, 2)), True
+        x0 = fl(d['x0']) if k == 'powerlaw' else 10 ** rng.uniform(2, 5)
+        a, b = placed_limits(rng, x0, x0 / 8, x0 / 16, family)
+        if b / a > 1e4:
+            a = b / 1e4
+        return a, b, True
+    if k in ('gauss', 'gaussflux'):
+        a, b = placed_limits(rng, fl(d['mean']), fl(d['stddev']), fl(d['stddev']), family)
+        return a, b, False
+    if k == 'box':
+        a, b = placed_limits(rng, fl(d['x0']), max(fl(d['width']), 2.0 ** -4), fl(d['width']) / 2, family)
+        return a, b, False
+    if k == 'trapezoid':
+        w = fl(d['width']) + 2 * fl(d['amp']) / fl(d['slope'])
+        a, b = placed_limits(rng, fl(d['x0']), max(w, 2.0 ** -4), fl(d['width']) / 2, family)
+        return a, b, False
     raise KeyError(k)
 
 
@@ -839,28 +873,30 @@ def make_case(rng, kind, K, refine_p, klass=None):
             case['fu'] = rng.choice(['absent', 'absent', 'absent', 'flam', 'flam_unit', 'foo', 'none_explicit'])
             case['xkw'] = rng.choice([None, 'area', 'area', 'bogus'])
     if analytic or err:
-        if kind in ('lorentz', 'const', 'powerlaw'):
-            a, b, geom = gen_limits(rng, d)
-            case['x'] = qs(x_array(rng, a, b))
-            if analytic and rng.random() < refine_p:
-                case['grid'] = {'lo': q(a), 'hi': q(b), 'geom': geom}
-        elif kind == 'ricker':
-            partial = rng.random() < 0.3
-            a, b, geom = gen_limits(rng, d, want_partial=partial)
-            case['x'] = qs(x_array(rng, a, b))
-            if analytic and not partial and rng.random() < refine_p:
-                case['grid'] = {'lo': q(a), 'hi': q(b), 'geom': False}
-        elif kind in FALLBACK:
+        if kind in FALLBACK:
             case['x'] = qs(small_grid(rng, d))
-        else:
-            # whole-profile models: the requested limits are arbitrary (they are ignored)
+        elif kind in ('blackbody', 'blackbodynorm'):
             lo, hi, geom = profile_range(rng, d)
-            if rng.random() < 0.5:
-                a = 10 ** rng.uniform(1.5, 5.5)
-                case['x'] = qs(x_array(rng, a, a * (1 + 10 ** rng.uniform(-3, 1))))
-            else:
-                case['x'] = qs(x_array(rng, lo, hi))
+            case['x'] = qs(x_array(rng, lo, hi))
             if analytic and rng.random() < refine_p:
+                case['grid'] = {'lo': q(lo), 'hi': q(hi), 'geom': geom}
+        else:
+            # explicit limits placed deliberately relative to the feature (wings, close / wide straddles,
+            # on the centre, on an edge or root, a thousand widths out), in both orders
+            fam = rng.choice(FAMILIES)
+            a, b, geom = gen_limits(rng, d, family=fam)
+            case['family'] = fam
+            case['x'] = qs(x_array(rng, a, b))
+            if kind in ('lorentz', 'const', 'powerlaw'):
+                if analytic and fam != 'far_out' and rng.random() < refine_p:
+                    case['grid'] = {'lo': q(a), 'hi': q(b), 'geom': geom}
+            elif kind == 'ricker':
+                full = a < fl(d['x0']) - fl(d['sigma']) and b > fl(d['x0']) + fl(d['sigma'])
+                if analytic and full and b - a <= 100 * fl(d['sigma']) and rng.random() < 2 * refine_p:
+                    case['grid'] = {'lo': q(a), 'hi': q(b), 'geom': False}
+            elif analytic and rng.random() < refine_p:
+                # whole-profile models ignore the requested limits; the reference grid covers the profile
+                lo, hi, geom = profile_range(rng, d)
                 case['grid'] = {'lo': q(lo), 'hi': q(hi), 'geom': geom}
     else:
         case['x'] = qs(small_grid(rng, d))
@@ -946,6 +982,8 @@ def tags(c, o):
         t.append('ampunit:' + c['model']['unit'])
     if c.get('grid'):
         t.append('refined')
+    if c.get('family'):
+        t.append('limits:%s:%s' % (c['model']['kind'], c['family']))
     t.append('class:' + c['model'].get('klass', c['model']['kind']))
     t.append('flux_unit:' + c.get('fu', 'absent'))
     t.append('extra_kw:' + str(c.get('xkw')))
@@ -969,8 +1007,10 @@ RULE = ('every model class of the running package (Model subclasses in synphot.m
         '{trapezoid, analytical} x integration_type in {analytical, None, trapezoid, 7 unknown names} x keyword options of the call (45% of the cases, 70% for the models without integrate(): flux_unit in {absent, None, photlam/PHOTLAM/units.PHOTLAM, flam/FLAM/units.FLAM, fnu, Jy, count, Angstrom, an unparsable name} x {no other keyword, area=, an unknown keyword}; the explicit-trapezoid twin of a fallback gets the same keywords); amplitudes 0 or '
         'log-uniform over 28 decades (sources) / 7 decades (bandpasses); centres log-uniform 200..1e5 A, widths 3e-5..0.4 of the '
         'centre; power-law index: the singular one exactly (1 per wavelength, -1 per frequency; 20%), singular +- 2^-k for k = 2..20 (20%), integers and reals in [-4, 6]; temperatures '
-        '30..3e5 K; limits: around the line / one wing (Lorentz), containing both roots or one of 6 partial layouts incl. exactly on a '
-        'root (Ricker), ratio max/min in 1.001..100 (constant, power law), arbitrary for whole-profile models; arrays ascending or '
+        '30..3e5 K; explicit limits of every peaked / ranged model (Lorentz, Gaussians, Ricker, box, trapezoid, constant, power law) drawn from '
+        'families placed relative to the feature: both in the left wing, both in the right wing, straddling the centre closely '
+        '(1/64..1/2 of the width each side, symmetric and asymmetric), straddling widely, one limit exactly on the centre, one exactly on '
+        'an edge / root / half-width, a thousand widths out; arrays ascending or '
         'descending with interior points. Trapezoid-path and evaluate cases use dyadic parameters and grid points (incl. exactly on '
         'edges/knots) so that every comparison is exact. Refinement oracle on a share of the analytic cases: 3126, 12501, 50001, 200001 points, '
         'uniform (geometric for constant, power law, black body). Non-trivial: every case whose wavelengths are valid.')
@@ -1022,7 +1062,7 @@ def run(rep):
         cases.append(c)
     nocase = []
     for klass, kind in targets(rep):
-        n = per_kind * (2 if kind in ('powerlaw', 'const') else 1) if kind in ANALYTIC else per_fallback
+        n = per_kind * (3 if kind == 'lorentz' else 2 if kind in ('powerlaw', 'const') else 1) if kind in ANALYTIC else per_fallback
         made = 0
         for _ in range(n):
             try:
